@@ -207,6 +207,8 @@ def campaign(prop: str, tier: str, verif_seed: int, spec: dict, workers: int | N
                     if res.violation is not None:
                         tot["violations"].append((-1, doc.get("run_seed", 0), doc["case"], res.violation.to_json()))
 
+    if hasattr(E, "preload"):
+        E.preload()  # loaded before the fork so that workers share the pages
     batch = max(5, min(200, total // (workers * 6) or 1))
     jobs = [(s, min(batch, total - s)) for s in range(0, total, batch)]
     deadline = t0 + budget
